@@ -344,6 +344,53 @@ def run_long(task):
     return {"n": n, "violations": list(viols.values())}
 
 
+def run_shapes(task):
+    """two shapes of real git output around a pair:
+    (1) one line of the pair is shown in its input colours (git --color-moved): the emphasised parts of the other
+        line then have no counterpart, so it must carry no emphasis either;
+    (2) `\\ No newline at end of file` between the removed and the added last line of a file: the two lines are
+        still the i-th removed and i-th added line of one run (max-line-distance 1 pairs them)."""
+    deadline, = task
+    drv = explore.get_driver()
+    viols = {}
+    n = 0
+    head = b"diff --git a/f b/f\n--- a/f\n+++ b/f\n@@ -1,2 +1,2 @@\n ctx\n"
+    cid = drv.mkconfig(build_args(base_opts({"width": "variable"})))
+    for name, data in (("moved-minus", head + b"\x1b[1;35m-let third_one = 3;\x1b[m\n\x1b[32m+\x1b[m\x1b[32mlet fourth_one = 3;\x1b[m\n"),
+                       ("moved-plus", head + b"\x1b[31m-let third_one = 3;\x1b[m\n\x1b[1;36m+\x1b[m\x1b[1;36mlet fourth_one = 3;\x1b[m\n")):
+        r = drv.render1(cid, data)
+        n += 1
+        for row in term.decode(r.out):
+            for t, st in row.runs:
+                if t.strip() and classify_style(st) in ("minus_emph", "plus_emph"):
+                    if "raw-partner-emphasised" not in viols:
+                        v = Violation("raw-partner-emphasised", "[%s] %r is emphasised although the other line of the pair "
+                                      "is shown in its input colours without any emphasis" % (name, t), data.split(b"\n")[:-1])
+                        v.args = build_args(base_opts({"width": "variable"}))
+                        viols[v.klass] = v
+    drv.drop(cid)
+    args = build_args(base_opts({"width": "variable", "max-line-distance": "1"}))
+    cid = drv.mkconfig(args)
+    for a, b in (("version = 1", "version = 2"), ("abc", "xyz")):
+        data = (b"diff --git a/f b/f\n--- a/f\n+++ b/f\n@@ -1,2 +1,2 @@\n ctx\n-" + a.encode() +
+                b"\n\\ No newline at end of file\n+" + b.encode() + b"\n\\ No newline at end of file\n")
+        r = drv.render1(cid, data)
+        n += 1
+        classes = set()
+        for row in term.decode(r.out):
+            for t, st in row.runs:
+                if t.strip():
+                    classes.add(classify_style(st))
+        if not classes & {"minus_emph", "plus_emph", "minus_non_emph", "plus_non_emph"}:
+            if "no-newline-marker-splits-pair" not in viols:
+                v = Violation("no-newline-marker-splits-pair", "max-line-distance 1: the removed and the added last line of a "
+                              "file without trailing newline (%r / %r) are not treated as a pair" % (a, b), data.split(b"\n")[:-1])
+                v.args = args
+                viols[v.klass] = v
+    drv.drop(cid)
+    return {"n": n, "violations": list(viols.values())}
+
+
 def run_crosshunk(task):
     """lines of different hunks are never partners: a hunk ending in removed lines followed by a hunk starting with
     similar added lines (zero-context diffs) shows no emphasis, whatever the hunk header style"""
@@ -424,6 +471,7 @@ def main(tier):
                                       for d in DISTANCES for i in range(6)])
     res3 = explore.pmap(run_long, [(d, deadline) for d in DISTANCES])
     res3 += explore.pmap(run_crosshunk, [(deadline,)])
+    res3 += explore.pmap(run_shapes, [(deadline,)])
     res2 = res2 + [dict(r, pairs=0) for r in res3]
     n = sum(r["n"] for r in res)
     nemph = sum(r["emph"] for r in res)
